@@ -123,6 +123,34 @@ func TestC10(t *testing.T) {
 	V.Require("sequence of datagrams judged after all were decoded", "cut in headers", "cut in body", "over-declared", "under-declared", "valid intact", "stale tail completes the message")
 	loop := newC10Loop()
 
+	// saved inputs: (datagram, stale bytes behind it) -> differential, and
+	// "nothing may be delivered" where the file says so
+	V.Regress(t, func(c regressCase) string {
+		if c.S("kind") != "dirty" {
+			return "skip: kind " + c.S("kind")
+		}
+		d, stale := []byte(c.S("datagram")), []byte(c.S("stale"))
+		buf := loop.u.msgBufPool.Alloc()
+		for i := range buf {
+			buf[i] = 0
+		}
+		copy(buf, d)
+		for o := len(d); o < len(buf) && len(stale) > 0 && o < len(d)+8*len(stale); o += len(stale) {
+			copy(buf[o:], stale)
+		}
+		got, err := loop.run(buf, len(d))
+		if err != nil {
+			return err.Error()
+		}
+		if c.Bool("expect_nothing") && got != nil {
+			return fmt.Sprintf("an incomplete datagram (%d bytes) was completed from the stale bytes behind it and delivered: %s", len(d), jsonBytes([]byte(got.String())))
+		}
+		if f := prodSame(got, c10Clean(d)); f != "" {
+			return "the parse loop on a dirty buffer and a clean decode of the same bytes disagree: " + f
+		}
+		return ""
+	})
+
 	eval := func(rt *rapid.T, m *AMsg, full []byte, d []byte, dirtKind int, expectValid, expectNothing bool, label string) {
 		// from the transport's own pool (the loop frees it into that pool, which
 		// keeps up to 40960 buffers: fresh ones per case would pile up), zeroed so
